@@ -73,6 +73,11 @@ def build(rng, tier):
             cases.append(K.mk(tree, 'POST', '/form-multipart-enctype-post-method', raw=(mp_head % b'X') + b'X\n' + b'a:1\n\nX\n' * 40000, alloc=400000, kind='many-parts-big-buffer'))
             cases.append(K.mk(tree, 'GET', '/', raw=b'GET ' + p0.encode('utf-8', 'surrogateescape') + b' HTTP/1.1\r\n' + b'a: b\r\n' * 60000 + b'\r\n', alloc=400000, kind='many-headers-big-buffer'))
             cases.append(K.mk(tree, 'POST', '/form-url-encoded-enctype-post-method', raw=b'POST /form-url-encoded-enctype-post-method HTTP/1.1\r\nContent-Type: application/x-www-form-urlencoded\r\n\r\n' + b'&'.join(b'k%d=v' % i for i in range(30000)), alloc=400000, kind='many-fields-big-buffer'))
+        # unparsable requests that fill the buffer exactly / by one / several times, then end of stream
+        for n in (9999, 10000, 10001, 15000, 20000, 20001, 30000):
+            for fill in (b'\xff', b'G', b'\x00'):
+                for entry in ('proc', 'preq'):
+                    cases.append(K.mk(tree, '?', '?', entry=entry, raw=fill * n, kind='oversized-malformed'))
         cases.append(Case_read_error(tree))
         batches.append((tree, cases))
     return batches
